@@ -147,9 +147,13 @@ func solveAll(cx *Ctx, obls []*Obligation, opt solveOpts) {
 			if o.ExpectSat {
 				// vacuity canary: look for a contradiction with the same instantiation
 				// machinery the proofs use (no model-based search)
-				r := runSolver(context.Background(), solverSpec{"z3-new", func(f string, t time.Duration, seed int) []string {
+				spec := solverSpec{"z3-new", func(f string, t time.Duration, seed int) []string {
 					return []string{"z3-new", "smt.mbqi=false", fmt.Sprintf("-T:%d", int(t.Seconds())+1), f}
-				}}, file, 3*time.Second, opt.seed)
+				}}
+				if cx.strMode {
+					spec = solvers[1] // cvc5: string theory with str.to_upper
+				}
+				r := runSolver(context.Background(), spec, file, 3*time.Second, opt.seed)
 				o.Status, o.Solver, o.TimeS, o.Output, o.Script = r.status, r.solver, r.dur.Seconds(), r.out, file
 				return
 			}
